@@ -80,7 +80,7 @@ UseReq(name, args) == WithDirs(ObjectD(name, <<>>, <<FieldD("r", I, <<>>)>>), <<
 GoodDocs ==
   { <<DQuery, DA, DB, DN>>, <<DU1, DE, DIn>>, <<DMut>>, <<DTag, DDate>>, <<XQuery>>, <<XA>>, <<XE, XU>>, <<XIn>>,
     <<DSchema>>, <<DSchemaQ>>, <<DE>>, <<DIn, DMut>>, <<DMut2>>, <<DSub>>, <<XQuery2, XE2>>,
-    <<XAImpl>>, <<DTop, DSchemaTop>>, <<DSub, XSchemaSub>>, <<XSchemaMut>>, <<XDateTag>>, <<DMark, DE3>>, <<DCfg, DUseCfg>>, <<XInD>>, <<DReq>>, <<UseReq("R1", <<>>)>>, <<DReq, UseReq("R2", <<AV("n", IntV(5))>>)>> }
+    <<XAImpl>>, <<DTop, DSchemaTop>>, <<DSub, XSchemaSub>>, <<XSchemaMut>>, <<XDateTag>>, <<DMark, DE3>>, <<DCfg, DUseCfg>>, <<XInD>>, <<DReq>>, <<WithDesc(ScalarD("Date"), "again")>>, <<UseReq("R1", <<>>)>>, <<DReq, UseReq("R2", <<AV("n", IntV(5))>>)>> }
 BadDocs ==
   { <<Syntax>>, <<XQuery, Syntax>>, <<DSchemaQ, Syntax>>, <<DE, ReadFault>>, <<XE, ReadFault, XU>>,
     <<XE, FXNotFound>>, <<XQuery, FEmpty>>, <<DSchemaQ, FUndef>>, <<FDup>>, <<XIn, FXDupField>>, <<XQuery, FXKind>>,
@@ -88,6 +88,8 @@ BadDocs ==
     \* an operation root type in a document refused only by the final validation; one type extended twice before the failure
     <<FXIface>>, <<DDate, FXIface>>, <<FXUnion>>,
     <<XDateTag, FEmpty>>, <<XETag, XUTag, FUndef>>, <<XInTag, XNTag, FEmpty>>, <<DSub, CloseFault>>, <<XQuery, XE, CloseFault>>,
+    \* a scalar declared again (silently skipped), this time with a description, in documents refused afterwards
+    <<WithDesc(ScalarD("Date"), "late"), FEmpty>>, <<WithDesc(ScalarD("Date"), "late"), FUndef>>, <<WithDesc(ScalarD("Date"), "late"), FDup>>,
     <<XInD, FEmpty>>, <<UseReq("R3", <<AV("n", NullV)>>)>>, <<DReq, UseReq("R3", <<AV("n", NullV)>>)>>, <<DMark, FUndef>>, <<DMark, DE3, FEmpty>>, <<DE3, FDup>>, <<DMark, FDup>>,
     <<DMut2, FEmpty>>, <<DSub, FInOut>>, <<XQuery, XQuery2, FEmpty>>, <<XE, XE2, FXNotFound>>, <<XIn, XIn2, FXDupField>> }
 G1 == <<DQuery, DA, DB, DN>>
